@@ -20,22 +20,37 @@ CHECK_CORR = 'check_corr'
 CHECK_SPEC = 'check_spec'
 SHARD = 85
 RULE = ('one case = backend (dict / directory / zip / caching wrapper) x failure-free history on one PulseStorage '
-        '(stores, clear, deletes) x final store / overwrite / delete, executed on the real code once without failure '
-        'and once for EVERY mutating primitive (open-for-write, file write [raise or half-written], os.remove/rename/'
-        'replace, mkstemp, ZipFile.writestr, backend.put/delete for the dict backend; on a quarter of the cases also '
-        'every read primitive) raising, and on a share of the fs / zip cases once per position with the PROCESS '
-        'KILLED there (forked child, os._exit, buffered data lost or flushed; observed by new objects); small-scope exhaustive '
-        'enumeration of child lists over {new leaf, new subtree, cached object, same object twice, identifier that '
-        'exists but is not cached, second object with a used identifier, un-serializable leaf} plus random templates '
-        'with named children / anonymous wrappers on pre-populated storages.  Non-trivial = at least two crash '
-        'positions or a pre-write failure; distinct = distinct canonical JSON of the case.')
+        '(stores, overwrites, clear or a new PulseStorage taking over, deletes, re-stores of deleted identifiers with '
+        'the same or another object) x final store / overwrite / delete.  The history runs once; from the restored state '
+        '(directory + attributes of the PulseStorage / backend objects; a sample is repeated from scratch and must '
+        'agree) the final operation runs once without failure and once for EVERY mutating primitive raising '
+        '(open-for-write, file write [raise or half-written], os.remove/rename/replace, mkstemp, ZipFile.writestr, '
+        'shutil copies chunk by chunk, backend.put/delete for the dict backend; on a quarter of the cases also every '
+        'read primitive; on a share of the zip cases and in the `lowlevel` family every low-level write of the archive '
+        'writer incl. those inside ZipFile.close(); quick tier: above 24 positions a selection that keeps every os / '
+        'shutil / backend level call with its neighbours), and on a share of the fs / zip cases once per flush mode '
+        'with the directory copied before every position (= what a process that stops there leaves; the process '
+        'really is killed at two positions per mode [thorough: all] and must leave the same), observed and followed '
+        'up by new objects.  Streams: small-scope enumeration of child lists over {new leaf, new subtree, cached '
+        'object, same object twice, identifier that exists but is not cached, second object with a used identifier, '
+        'un-serializable leaf}; deterministic families `order` (all assignments of the identifiers 3/10/20 to parent '
+        'and children), `hist` (delete + re-store histories), `ow` (overwrite of an existing, referenced identifier '
+        'with new sub-templates, retried / wrapped afterwards), `lowlevel`, `same` (the cached object itself again); '
+        'random templates on pre-populated storages.  Non-trivial = at least two crash positions or a pre-write '
+        'failure; distinct = distinct canonical JSON of the case.')
 TRUSTED = [
     'Coq 8.16.1 kernel + vm_compute',
-    'harness fault injector (patches builtins.open / file.write,close / os.remove,rename,replace / tempfile.mkstemp / '
-    'zipfile.ZipFile.__init__,open,writestr,write,close / backend.put,delete): a primitive the code performs through '
-    'another API is not a fault position; kill runs use os.fork + os._exit (the child inherits the PulseStorage), the '
-    'observation afterwards uses new backend / PulseStorage objects in the parent',
-    'harness document parser (payload = first measurement name, references in document order)',
+    'harness fault injector (patches builtins.open / os.fdopen / file.write,close / os.remove,rename,replace / '
+    'tempfile.mkstemp / shutil.copy*,move,copyfileobj (no sendfile fast path, 256-byte chunks) / zipfile.ZipFile.'
+    '__init__,open,writestr,write,close / io.open as used by zipfile (low-level positions) / backend.put,delete): a '
+    'primitive the code performs through another API is not a fault position',
+    'harness state restore between the runs of one case (directory copy + shallow copy of the attributes of the '
+    'PulseStorage and backend objects), cross-checked on a sample of runs per case against a run from scratch',
+    'kill runs: the directory content copied at a position (after flushing what the flush mode says) is what a '
+    'process stopping there leaves behind - cross-checked at sampled positions (thorough: all) by really killing a '
+    'forked child (os._exit) there; the observation afterwards uses new backend / PulseStorage objects',
+    'harness document parser (payload = first measurement name, references in document order); observations are '
+    'cached by the complete content of the backend (bytes of the archive file / all listed documents)',
     'CPython json / zipfile / os behave as documented; os.replace is atomic',
 ]
 ASSUMPTIONS = [
@@ -705,7 +720,9 @@ def spec_failures(case, obs):
 
 
 # classification (exact): `finding_of` in Corr.v decides, for a case the specification rejects, whether the
-# implementation behaved exactly as the model predicts AND some operation of the case is outside a guard in the model.
+# implementation behaved exactly as the model predicts AND some operation of the case flushes a transaction buffer
+# outside guard_C11_tx in the model (round 3: the buffer guard, weaker than the two round-2 guards; with every buffer
+# inside it C11_crash_safe_tx excludes a rejection).
 # It is evaluated in Coq, in one batch for all rejected cases of a run (collected by py_spec, which runs first).
 FINDINGS = {1: 'dup-id-in-transaction', 2: 'overwrite-creates-cycle'}
 _PENDING = {}
@@ -817,21 +834,25 @@ MANIFEST = {
                   'transaction buffer: after every prefix of the primitive steps - whether the failing primitive raises '
                   'and the clean-up clauses run, or the process is killed and nothing else runs - the archive exists, '
                   'every listed identifier loads recursively, every identifier holds old or new content, and nothing '
-                  'changes before the first publishing step (C11_crash_safe, C11_crash_safe_kill_or_raise); the '
-                  'hypotheses are an invariant of histories of completed / failed / killed operations '
-                  '(C11_history_safe).  The model is tied to /repo on every run by fault injection at every mutating '
-                  '(and, on a share of the cases, reading) primitive of the real backends, by kill runs (forked child '
-                  'stops before every position, observation and follow-up operation by new objects) and a follow-up '
-                  'operation after every failure.',
-    'level_note': 'Full proof under two executable guards that are necessary for the unchanged code (refutation '
-                  'theorems; known findings dup-id-in-transaction and overwrite-creates-cycle): one identifier names one '
-                  'document inside the stored template; no written identifier is reachable in the old storage from an '
-                  'unwritten identifier the new documents refer to.  Only the order of system calls is modelled (no '
-                  'fsync / power-loss reordering); kills happen at hooked positions only.  Trusted: Coq kernel, the '
-                  'harness fault injector / fork-based kill runs and document parser, CPython os / zipfile, atomicity '
-                  'of os.replace.',
+                  'changes before the first publishing step (C11_crash_safe, C11_crash_safe_kill_or_raise; round 3: '
+                  'C11_crash_safe_tx under ONE weaker guard on the transaction buffer); the hypotheses are an invariant '
+                  'of histories of completed / failed / killed operations (C11_history_safe, C11_history_safe_tx).  The '
+                  'model is tied to /repo on every run by fault injection at every mutating (on a share of the cases '
+                  'also reading, and low-level archive-writer) primitive of the real backends, by kill runs (directory '
+                  'copied before every position, the process really killed at sampled positions, several flush modes, '
+                  'observation and follow-up operation by new objects) and a follow-up operation after every failure.',
+    'level_note': 'Full proof under executable guards: guard_C11_tx (the buffer the encoder builds is duplicate free and '
+                  'every reference goes to an earlier entry or to an old identifier from which nothing written is '
+                  'reachable), implied by the two round-2 guards guard_C11_dup_id + guard_C11_cycle and strictly weaker '
+                  '(theorems).  guard_C11_cycle is exact inside guard_C11_dup_id (C11_cycle_guard_exact: a rejected '
+                  'overwrite, once completed, leaves a reference cycle); outside guard_C11_dup_id the buffer guard is '
+                  'sufficient, not necessary.  The unchanged code violates the property outside the guards (refutation '
+                  'theorems; known findings dup-id-in-transaction and overwrite-creates-cycle).  Only the order of system '
+                  'calls is modelled (no fsync / power-loss reordering); failures / kills happen at hooked positions '
+                  'only.  Trusted: Coq kernel, the harness fault injector / state restore / directory-copy kill runs '
+                  '(each cross-checked on samples) and document parser, CPython os / zipfile, atomicity of os.replace.',
     'technique': 'Coq proof (induction over the primitive step list, the transaction buffer and the template; rank / '
-                 'pigeonhole argument for recursive loadability; invariant over histories) + fault-injection and '
-                 'kill-run correspondence check',
+                 'pigeonhole argument for recursive loadability; connectivity invariant of the encoder for exactness; '
+                 'invariant over histories) + fault-injection and kill-run correspondence check',
     'design_ref': 'DESIGN.md §5 C11',
 }
